@@ -39,6 +39,10 @@ func main() {
 	res.Write(cfg)
 }
 
+// nameOnly / nameExprs: set by the replay of a names correspondence case
+var nameOnly []*V
+var nameExprs []*NX
+
 var imports = []string{"Model.Base", "Model.Keys", "Corr.CorrC07"}
 
 func gKey(k string, ok bool) string { return lib.GOpt(ok, lib.GStr(k), "list N") }
@@ -50,6 +54,7 @@ func run(p *pool, cfg *lib.Config, res *lib.Result, rng *lib.Rng, only map[strin
 	ck := &checker{p: p, res: res, viol: map[string]int{}}
 	ck.keys()
 	ck.pairs()
+	ck.routeIndependence()
 	ck.ownEntriesOfPool()
 	ck.derivedOfPool()
 	caches := ck.cacheMatrix(cfg)
@@ -151,6 +156,7 @@ func run(p *pool, cfg *lib.Config, res *lib.Result, rng *lib.Rng, only map[strin
 	res.CorrFiles = append(res.CorrFiles, cu.WriteTo(cfg.Out, "cases_unique"))
 	res.CorrFiles = append(res.CorrFiles, cfa.WriteTo(cfg.Out, "cases_from_array"))
 	res.CorrFiles = append(res.CorrFiles, caches)
+	res.CorrFiles = append(res.CorrFiles, ck.nameCases(cfg, nameOnly))
 }
 
 func equalTexts(p *pool, ck *checker, i int) []string {
@@ -186,11 +192,20 @@ func replay(c px.Context, cfg *lib.Config, res *lib.Result) {
 	var rows, vals, fa []*V
 	for _, in := range lib.ReplayInputs(cfg.Replay) {
 		var x struct {
-			Kind string `json:"kind"`
-			Vs   []*V   `json:"vs"`
+			Kind  string `json:"kind"`
+			Vs    []*V   `json:"vs"`
+			Exprs []*NX  `json:"exprs"`
 		}
 		lib.Remarshal(in, &x)
 		switch x.Kind {
+		case "names":
+			// a names correspondence case: the two construction expressions
+			nameExprs = append(nameExprs, x.Exprs...)
+			nameOnly = append(nameOnly, x.Vs...)
+			vals = append(vals, x.Vs...)
+			for _, e := range x.Exprs {
+				fmt.Printf("names case: %s evaluates to %s\n", e, e.eval(c))
+			}
 		case "row":
 			rows = append(rows, x.Vs...)
 		case "fromarray":
